@@ -38,6 +38,7 @@ class Profile:
     flat: bool = False           # C18: one concrete container per APID, no polymorphism
     wide_ints: bool = True
     multi_byte_strings: bool = True
+    legacy_float_spellings: bool = False   # 'IEEE-754' / 'MIL-1750A' (tolerated with a warning at load)
 
 
 @dataclass
@@ -218,6 +219,9 @@ class DocGen:
         r = self.rng
         kind = r.choice(["IEEE754", "IEEE754", "IEEE754_1985", "MILSTD_1750A"])
         width = 32 if kind == "MILSTD_1750A" else r.choice([16, 32, 64])
+        if self.p.legacy_float_spellings and r.random() < 0.5:
+            # unofficial spellings the library tolerates (with a warning) and treats as the official ones
+            kind = "MIL-1750A" if kind == "MILSTD_1750A" else "IEEE-754"
         e = ir.FloatEnc(width, kind, r.random() < self.p.p_little)
         if calibrate and r.random() < 0.5:
             d, c = self.calibrators(e, cx, self_name)
@@ -599,7 +603,7 @@ class PacketBuilder:
                 return bits.to_bits(r.getrandbits(n), n)
             return encode_int(e, raw)
         if isinstance(e, ir.FloatEnc):
-            if e.encoding == "MILSTD_1750A":
+            if e.encoding in ("MILSTD_1750A", "MIL-1750A"):
                 fb = bits.to_bits(r.getrandbits(32), 32)
                 return fb
             if t.kind == "enumerated" and r.random() < 0.9:
